@@ -65,11 +65,8 @@ theorem construct_eq_mk (a b c d : BitVec 8) : construct a b c d = mk a b c d :=
   simp only [construct, mk]; bv_decide
 
 theorem deconstruct_mk (a b c d : BitVec 8) : deconstruct (mk a b c d) = [a, b, c, d] := by
-  have h0 : (BitVec.setWidth 8 (mk a b c d)) &&& 0xff#8 = a := by simp only [mk]; bv_decide
-  have h1 : BitVec.setWidth 8 ((mk a b c d >>> 8) &&& 0xff#32) = b := by simp only [mk]; bv_decide
-  have h2 : BitVec.setWidth 8 ((mk a b c d >>> 16) &&& 0xff#32) = c := by simp only [mk]; bv_decide
-  have h3 : BitVec.setWidth 8 ((mk a b c d >>> 24) &&& 0xff#32) = d := by simp only [mk]; bv_decide
-  simp only [deconstruct, h0, h1, h2, h3]
+  simp only [deconstruct, mk, List.cons.injEq, and_true]
+  refine ⟨?_, ?_, ?_, ?_⟩ <;> bv_decide
 
 /-! ### `searchNode4` / `insertPosNode4`: the intermediate words -/
 
